@@ -398,7 +398,8 @@ def selftest(ctx, traces, accepted):
     for k in accepted:
         recs = traces[k]
         lines = [i for i, r in enumerate(recs) if r["ev"] == "line" and r["b"]]
-        if recs[0]["kind"] == "sock" and recs[0]["nw"] >= 2 and len(lines) >= 3 and \
+        owners = [recs[i]["b"][0] // 10 for i in lines]
+        if recs[0]["kind"] == "sock" and recs[0]["nw"] >= 2 and len(lines) >= 3 and len(set(owners)) < len(owners) and \
                 any(r["ev"] == "chanclosed" for r in recs):
             best = (k, recs, lines)
             break
@@ -411,10 +412,11 @@ def selftest(ctx, traces, accepted):
     other = 10 * (m[i]["b"][0] // 10 % recs[0]["nw"] + 1) + 7
     m[i]["b"] = m[i]["b"][:-1] + [other]                 # one byte of another connection spliced in
     muts["corrupt-byte"] = m
-    muts["drop-line"] = [dict(r) for j, r in enumerate(recs) if j != lines[0]]
     same = [(a, b) for a in lines for b in lines if a < b and recs[a]["b"][0] // 10 == recs[b]["b"][0] // 10]
     if same:
         a, b = same[0]
+        # a line that is followed by a later line of the same connection goes missing
+        muts["drop-line"] = [dict(r) for j, r in enumerate(recs) if j != a]
         m = [dict(r) for r in recs]
         m[a], m[b] = m[b], m[a]
         muts["swap-lines"] = m
